@@ -157,6 +157,65 @@ def gen_coverages(rng):
     return float(box), float(wh)
 
 
+# Extreme but legal magnitudes.  The statement has no scale: every clause is decided by comparisons of the values
+# (strictly better, rank, stratum, finite or not, position in the sorted sample), so the same clauses must hold for
+# data of the order of 1e-11 .. 1e-300 (down to the subnormal range), of 1e+11 .. 1e+300, for values that differ in
+# their last binary digits or in the 11th..14th decimal only, and for samples that mix those magnitudes.
+TINY_SCALES = [1e-11, 1e-12, 1e-13, 1e-20, 1e-100, 1e-200, 1e-300]
+HUGE_SCALES = [1e11, 1e20, 1e100, 1e200, 1e300]
+MAG_BASES = [1.0, -1.0, 1e6, 273.15, 1e-3, 123456.789, 1e15, -0.1, 1e-200, 1e200]
+MAG_KINDS = ["tiny", "tiny", "subnormal", "huge", "huge", "last-digits", "last-digits", "decimals", "decimals",
+             "mixed"]
+MIXED_MAGS = [0.0, 5e-324, 1e-300, 1e-200, 1e-100, 1e-12, 1.0, 1e12, 1e100, 1e200, 1e300]
+
+
+def mag_map(rng, kind=None):
+    """a map unit value -> value of one magnitude class (name, function); the unit values are small integers
+    (heavy ties) or standard Gaussian numbers.  Sums of up to 1500 such values stay below the largest double."""
+    kind = kind or rng.choice(MAG_KINDS)
+    if kind == "tiny":
+        s = rng.choice(TINY_SCALES)
+        return f"tiny:{s:g}", lambda u: u * s
+    if kind == "subnormal":         # whole multiples of the smallest positive double
+        return "subnormal", lambda u: round(4 * u) * 5e-324
+    if kind == "huge":
+        s = rng.choice(HUGE_SCALES)
+        return f"huge:{s:g}", lambda u: max(-9.0, min(9.0, u)) * s
+    base = rng.choice(MAG_BASES)
+    if kind == "last-digits":       # neighbours of one number: a few spacings of the type apart
+        sp = math.ulp(base)
+        return f"last-digits:{base:g}", lambda u: base + round(2 * u) * sp
+    if kind == "decimals":          # differences in the 11th .. 14th significant decimal
+        d = rng.choice([1e-11, 1e-12, 1e-13, 1e-14]) * abs(base)
+        return f"decimals:{base:g}:{d:g}", lambda u: base + u * d
+    if kind == "mixed":
+        mags = rng.sample(MIXED_MAGS, rng.randint(2, 5))
+        return "mixed", lambda u: (1.0 if u >= 0 else -1.0) * rng.choice(mags) * rng.choice([1.0, 2.0, 3.0])
+    raise ValueError(kind)
+
+
+def gen_values_mag(rng, n, kind=None):
+    """n finite values of one magnitude class, continuous or heavily tied; returns (values, class name)"""
+    name, f = mag_map(rng, kind)
+    if rng.random() < 0.45:
+        k = rng.choice([1, 2, 3, 5])
+        units = [float(rng.randint(-k, k)) for _ in range(n)]
+        name += "/tied"
+    else:
+        units = [rng.gauss(0, 1) for _ in range(n)]
+    return [float(f(u)) for u in units], name
+
+
+def mag_of(vals):
+    """largest absolute finite value (0 for none): the yardstick of the rounding tolerances"""
+    return max([0.0] + [abs(v) for v in vals if isfin(v)])
+
+
+def rel_tol(vals):
+    """1e-9 of the largest finite magnitude of the sample, at least a few spacings of the subnormal range"""
+    return max(1e-9 * mag_of(vals), 1e-322)
+
+
 # ----------------------------------------------------------------------------
 # stored representations of the inputs.  The property speaks of sample sizes, ranges, vectors,
 # point sets, columns and grouping vectors - of VALUES; every way of holding the same values
@@ -583,6 +642,17 @@ def run(ctx):
             do_ppos(nval, cst)
     for cst in [-0.1, 0.6, -1e-12, 0.5000000001, 5e-324, 0.49999999999999994]:
         do_ppos(rng.randint(1, 20), cst)
+    # constants at the two ends of [0, 0.5] and next to them (where the range test and the denominator
+    # n + 1 - 2 cst switch), for every small size and a few larger ones
+    EDGE_CSTS = [0.0, 5e-324, 1e-300, 1e-16, 1e-12, 0.5 - 1e-12, 0.49999999999999994, 0.5]
+    for nval in list(range(0, 6)) + [rng.randint(6, 300) for _ in range(ctx.scale(3, 20))]:
+        for cst in (EDGE_CSTS if nval < 3 or TH else rng.sample(EDGE_CSTS, 3)):
+            do_ppos(nval, cst)
+    # large samples (oracle only: the lists are too long for the case files)
+    model_too[0] = False
+    for nval in rng.sample([1000, 4096, 10007, 65536], ctx.scale(1, 4)) + ([200003] if TH else []):
+        do_ppos(nval, rng.choice(CSTS + [0.0, 0.5]))
+    model_too[0] = True
     # size and constant held as numpy scalars / 0-d arrays / integers (values those types hold exactly)
     for nrep in ["int", "np.int64", "np.int32", "np.int8"]:
         for crep in ["float", "np.float64", "np.float32", "0d", "int"]:
@@ -602,24 +672,36 @@ def run(ctx):
         def __getattr__(self, name):
             return getattr(self.real, name)
 
-    def do_snorm(x, cst, srt, xrep="ndarray", seed=0, twice=False):
+    def do_snorm(x, cst, srt, xrep="ndarray", seed=0, twice=False, method="average"):
         """xrep: how the vector is held (vec_rep); twice: the same object is passed a second time and
-        the second answer is the one examined.  Returns the objects handed in and out."""
+        the second answer is the one examined; method: the option rank_method (the Coq model covers the default
+        "average" only: the other methods go through the oracle alone).  Returns the objects handed in and out."""
+        if method != "average":
+            keep = model_too[0]
+            model_too[0] = False
+            try:
+                return do_snorm_(x, cst, srt, xrep, seed, twice, method)
+            finally:
+                model_too[0] = keep
+        return do_snorm_(x, cst, srt, xrep, seed, twice, method)
+
+    def do_snorm_(x, cst, srt, xrep, seed, twice, method):
         proxy = NormProxy(sutils.norm)
         xin = vec_rep(pd, xrep, x, seed)
         replay = {"call": "sutils.standard_normal", "x": x, "cst": cst, "sorted": srt, "x_held_as": xrep,
-                  "rep_seed": seed, "same_object_passed_twice": twice}
+                  "rep_seed": seed, "same_object_passed_twice": twice, "rank_method": method}
+        kw = {} if method == "average" else {"rank_method": method}
         hasnan = any(math.isnan(v) for v in x)
         exc = None
         raw = []
         try:
             if twice:
-                sutils.standard_normal(xin, cst=cst, sorted=srt)
+                sutils.standard_normal(xin, cst=cst, sorted=srt, **kw)
                 if not same_snapshot(snapshot(xin), snapshot(vec_rep(pd, xrep, x, seed))):
                     ctx.notes["input_modified_by_call"] = ctx.notes.get("input_modified_by_call", 0) + 1
                     return None     # the caller's vector was changed: what it holds now is another input
             with Patch(sutils, "norm", proxy):
-                unorm, ranks = sutils.standard_normal(xin, cst=cst, sorted=srt)
+                unorm, ranks = sutils.standard_normal(xin, cst=cst, sorted=srt, **kw)
             raw = [unorm, ranks]
             unorm = [float(v) for v in np.asarray(unorm)]
             ranks = [float(v) for v in np.asarray(ranks)]
@@ -644,7 +726,7 @@ def run(ctx):
             exp = "None" if ranks is None else f"(Some ({fl(ranks)}, {fl(args)}))"
             i = add(f"CSnorm {fl(x)} {cm.coq_float(cst)} {cm.coq_bool(srt)} {exp}", replay,
                     ("snorm", min(len(x), 4), nties > 0, nties == len(x) - 1 and len(x) > 1, srt, ranks is None,
-                     xrep, twice))
+                     xrep, twice, method))
         res = {"in": [xin], "out": raw}
         if hasnan:
             return res  # outside the quantifier (NaN-free vectors): correspondence only
@@ -656,14 +738,25 @@ def run(ctx):
         if len(unorm) != n or len(ranks) != n:
             fail(i, "C20/standard_normal/length", "output length differs from input length", replay)
             return res
-        # ranks are the data ranks (average method, zero based), independent exact computation
+        # ranks are the data ranks (zero based; ties by the chosen method), independent exact computation
         if not srt:
+            distinct = sorted(set(x))
             for k in range(n):
                 less = sum(1 for v in x if v < x[k])
                 eq = sum(1 for v in x if v == x[k])
-                want = Fraction(2 * less + eq + 1, 2) - 1
+                if method == "average":
+                    want = Fraction(2 * less + eq + 1, 2) - 1
+                elif method == "min":
+                    want = Fraction(less)
+                elif method == "max":
+                    want = Fraction(less + eq - 1)
+                elif method == "dense":
+                    want = Fraction(sum(1 for v in distinct if v < x[k]))
+                else:       # first: ties in the order of appearance
+                    want = Fraction(less + sum(1 for v in x[:k] if v == x[k]))
                 if not isfin(ranks[k]) or F(ranks[k]) != want:
-                    fail(i, "C20/standard_normal/rank", f"rank[{k}] = {ranks[k]!r}, expected {float(want)!r}", replay)
+                    fail(i, "C20/standard_normal/rank", f"rank[{k}] = {ranks[k]!r} (rank_method {method}), expected "
+                         f"{float(want)!r}", replay)
                     return res
         # scores: finite, and a strictly increasing function of the ranks
         if any(not isfin(u) for u in unorm):
@@ -684,7 +777,7 @@ def run(ctx):
 
     if replay_is("sutils.standard_normal"):
         do_snorm([float(v) for v in rp["x"]], float(rp["cst"]), bool(rp["sorted"]), rp.get("x_held_as", "ndarray"),
-                 int(rp.get("rep_seed", 0)), bool(rp.get("same_object_passed_twice")))
+                 int(rp.get("rep_seed", 0)), bool(rp.get("same_object_passed_twice")), rp.get("rank_method", "average"))
     for it in range(ctx.scale(70, 700)):
         n = rng.choice([0, 1, 2, 3, 4, rng.randint(0, 30), rng.randint(0, ctx.scale(300, 1500))])
         x = gen_values(rng, n)
@@ -708,6 +801,33 @@ def run(ctx):
             x = sorted(x)
         do_snorm(x, rng.choice([0.0, 0.3, 0.375, 0.5, rng.uniform(0, 0.5)]), srt, xrep, rng.randrange(10 ** 6),
                  twice=rng.random() < 0.3)
+    # vectors of extreme but legal magnitudes (the ranks are decided by comparisons of the values: 1e-300, the
+    # subnormal range, 1e+300, neighbouring doubles, values equal to 10 decimals, mixed magnitudes, +-0, +-inf are
+    # values like any other - a vector with +-inf is NaN-free), constants at the ends of [0, 0.5]
+    for it in range(ctx.scale(40, 300)):
+        n = rng.choice([1, 2, 3, 4, 7, rng.randint(0, 30), rng.randint(0, ctx.scale(120, 600))])
+        x, _ = gen_values_mag(rng, n)
+        r = rng.random()
+        if r < 0.15 and n > 1:
+            for k in rng.sample(range(n), min(n, rng.choice([1, 2, 3]))):
+                x[k] = rng.choice([INF, -INF])
+        elif r < 0.3 and n > 1:
+            for k in rng.sample(range(n), min(n, rng.choice([1, 2, 3]))):
+                x[k] = rng.choice([0.0, -0.0])
+        srt = rng.random() < 0.2
+        if srt:
+            x = sorted(x)
+        do_snorm(x, rng.choice([0.0, 0.0, 0.375, 0.5, 1e-300, 0.49999999999999994, rng.uniform(0, 0.5)]), srt,
+                 rng.choice(["ndarray", "ndarray", "list", "series:range", "strided"]), rng.randrange(10 ** 6))
+    # the option rank_method: the scores are a strictly increasing function of the data ranks whatever the way ties
+    # are ranked (ranks by the method's own definition; tied, constant, continuous and extreme-magnitude vectors)
+    for it in range(ctx.scale(32, 240)):
+        n = rng.choice([1, 2, 3, 5, 8, rng.randint(0, 40), rng.randint(0, ctx.scale(150, 600))])
+        x = gen_values(rng, n) if it % 3 else gen_values_mag(rng, n)[0]
+        srt = rng.random() < 0.15
+        do_snorm(sorted(x) if srt else x, rng.choice([0.0, 0.3, 0.375, 0.5, rng.uniform(0, 0.5)]), srt,
+                 rng.choice(["ndarray", "ndarray", "series:shuffled", "list"]),
+                 rng.randrange(10 ** 6), method=["min", "max", "first", "dense"][it % 4])
 
     # ------------------------------------------------------------------ numpy.linspace
     for it in range(ctx.scale(40, 300)):
@@ -787,11 +907,13 @@ def run(ctx):
         if len(cols) != npar or any(len(c) != n for c in cols):
             fail(i, "C20/lhs/shape", "sample matrix is not nsamples x nparams", replay)
             return res
-        # exactly one point in each of the n equal strata of every range (exact rationals;
-        # a point within 1e-9 stratum widths of a boundary may count for either side)
+        # exactly one point in each of the n equal strata of every range (exact rationals; a point within
+        # 1e-9 stratum widths - or, for a range far from zero, within 8 spacings of the doubles at its bounds:
+        # the rounding of centre + jitter - of a boundary may count for either side)
         for j in range(npar):
             a, b = F(pmin[j]), F(pmax[j])
             du = (b - a) / n
+            slack = max(Fraction(1, 10 ** 9), 8 * F(math.ulp(max(abs(pmin[j]), abs(pmax[j])))) / du)
             sure, free = [], []
             for s in cols[j]:
                 if not isfin(s):
@@ -800,16 +922,16 @@ def run(ctx):
                 t = (F(s) - a) / du
                 k = math.floor(t)
                 fr = t - k
-                if fr < Fraction(1, 10 ** 9):
+                if fr < slack:
                     free.append((k - 1, k))
-                elif fr > 1 - Fraction(1, 10 ** 9):
+                elif fr > 1 - slack:
                     free.append((k, k + 1))
                 else:
                     sure.append(k)
             okj = len(set(sure)) == len(sure) and all(0 <= k < n for k in sure)
-            if okj:
+            if okj:     # matching of the points next to a boundary (two neighbouring strata each) to the strata left
                 left = set(range(n)) - set(sure)
-                for opts in free:
+                for opts in sorted(free, key=lambda o: o[1]):
                     hit = [k for k in opts if k in left]
                     if not hit:
                         okj = False
@@ -902,6 +1024,41 @@ def run(ctx):
         r1 = tname if npar > 1 or half or rng.random() < 0.6 else "np.float32"
         r0 = rng.choice([tname, "list", "ndarray", "int64"]) if r1 != "np.float32" else rng.choice(["np.float32", "float"])
         do_lhs(rng.randint(10, 100), pmin, pmax, (r0, r1), rng.randrange(10 ** 6), "int", False)
+    # ranges of extreme but legal location and width ("arbitrary finite ranges"): widths from the subnormal range
+    # to 1e+300 at zero, around zero and next to it; ranges far from zero that are 64 .. 1e6 spacings of the
+    # doubles per stratum wide; one such parameter beside ordinary ones.  (A width that is not a finite double,
+    # e.g. [-1e308, 1e308], is not generated: pmax - pmin overflows.)
+    def gen_range_mag(n):
+        kind = rng.choice(["tiny-width", "tiny-width", "huge-width", "huge-width", "subnormal", "far-narrow",
+                           "far-narrow", "ordinary"])
+        if kind == "tiny-width":
+            w = 10 ** rng.uniform(-300, -4)
+            a = rng.choice([0.0, -w * rng.random(), w * rng.randint(-3, 3), -w])
+        elif kind == "huge-width":
+            w = 10 ** rng.uniform(6, 300)
+            a = rng.choice([0.0, -w * rng.random(), -w / 2, -w, w * rng.random(), rng.gauss(0, 1)])
+        elif kind == "subnormal":
+            w = rng.uniform(1, 100) * 1e-312
+            a = rng.choice([0.0, rng.uniform(-1, 1) * 1e-310, -w / 2])
+        elif kind == "far-narrow":
+            a = rng.choice([1.0, -1.0]) * 10 ** rng.uniform(0, 300)
+            w = math.ulp(a) * n * rng.choice([64, 1000, 10 ** 6, 10 ** 9])
+        else:
+            a, w = rng.gauss(0, 10), rng.uniform(0.1, 10)
+        a = float(a)
+        return a, float(a + w)
+
+    for it in range(ctx.scale(50, 400)):
+        n = rng.choice([1, 2, 3, 10, rng.randint(1, 50), rng.randint(50, ctx.scale(300, 1000))])
+        pmin, pmax = [], []
+        for _ in range(rng.randint(1, 4)):
+            a, b = gen_range_mag(n)
+            pmin.append(a)
+            pmax.append(b)
+        if any(not (b > a) or not isfin(b - a) for a, b in zip(pmin, pmax)):
+            continue
+        do_lhs(n, pmin, pmax, rng.choice([("ndarray", "ndarray"), ("list", "list"), ("list", "ndarray")]),
+               rng.randrange(10 ** 6))
 
     # ------------------------------------------------------------------ pareto_front
     def o_dominated(data, o):
@@ -1010,11 +1167,39 @@ def run(ctx):
         do_pareto(data, ncol, rng.choice([1, -1]), mrep,
                   rng.choice(["int", "int", "np.int64", "np.int32", "np.int8", "float", "np.float64"]),
                   twice=rng.random() < 0.3)
+    # point sets of extreme but legal magnitudes: "strictly better" is a comparison, whatever the size of the
+    # improvement.  Every column gets a magnitude class of its own (objective values of the order of 1e-11 ..
+    # 1e-300 or whole multiples of the smallest double, of 1e+11 .. 1e+300, neighbouring doubles, values equal to
+    # 10 decimals, mixed magnitudes, +-0) or stays ordinary; lattices, Gaussian clouds, chains and anti-chains
+    # as above, NaN coordinates, both orientations, several layouts.
+    def gen_points_mag(n, ncol):
+        data = gen_points(n, ncol)
+        names = []
+        for j in range(ncol):
+            if rng.random() < 0.2 and ncol > 1:
+                names.append("ordinary")
+                continue
+            name, f = mag_map(rng)
+            names.append(name)
+            for r in data:
+                if not math.isnan(r[j]):
+                    r[j] = float(f(r[j]))
+                    if r[j] == 0.0 and rng.random() < 0.3:
+                        r[j] = -0.0
+        return data, names
+
+    for it in range(ctx.scale(90, 900)):
+        n = rng.choice([2, 3, 4, rng.randint(0, 12), rng.randint(0, 60)])
+        ncol = rng.randint(1, 5)
+        data, names = gen_points_mag(n, ncol)
+        do_pareto(data, ncol, rng.choice([1, -1]),
+                  rng.choice(["C", "C", "C", "F", "transposed", "row-strided", "big-endian", "readonly"]),
+                  rng.choice(["int", "int", "np.int64", "float"]))
 
     # ------------------------------------------------------------------ numpy.percentile
     for it in range(ctx.scale(150, 1500)):
         n = rng.choice([1, 2, 3, 4, 5, rng.randint(1, 50), rng.randint(1, 300)])
-        s = sorted(gen_values(rng, n))
+        s = sorted(gen_values(rng, n) if it % 4 else gen_values_mag(rng, n)[0])
         p = rng.choice([0.0, 100.0, 50.0, 25.0, 75.0, 5.0, 95.0, rng.uniform(0, 100),
                         100.0 * rng.randrange(n) / max(1, n - 1) if n > 1 else 30.0])
         p = min(100.0, max(0.0, float(p)))
@@ -1043,8 +1228,8 @@ def run(ctx):
             fail(i, f"C20/{where}/statistics-of-empty-sample{tag}", f"no finite value but statistics {allv}", replay)
             return
         s = sorted(F(v) for v in fin)
-        sc = scale_of(fin)
-        tol = 1e-9 * sc
+        sc = mag_of(fin)        # tolerances relative to the sample itself (data of any magnitude)
+        tol = rel_tol(fin)
         b1, b2 = exact_levels(box)
         w1, w2 = exact_levels(wh)
         for name, lev, got in zip(["whisker-low", "box-low", "median", "box-high", "whisker-high"],
@@ -1055,7 +1240,7 @@ def run(ctx):
                      f"sample gives {float(want)!r} (n={len(fin)})", replay)
                 return
         seq = [st["min"]] + st["prc"] + [st["max"]]
-        if any(not (a <= b + 1e-12 * sc) for a, b in zip(seq, seq[1:])):
+        if any(not (a <= b + 1e-12 * sc) for a, b in zip(seq, seq[1:])):   # sc: largest finite magnitude
             fail(i, f"C20/{where}/not-ordered{tag}", f"min, percentiles, max not in non-decreasing order: {seq}", replay)
             return
         if F(st["min"]) != s[0] or F(st["max"]) != s[-1]:
@@ -1219,6 +1404,64 @@ def run(ctx):
         box, wh = gen_coverages(rng)
         do_boxfn(v, box, wh, vrep, rng.randrange(10 ** 6))
 
+    # Regions of the quantifier where a comparison inside the summary switches:
+    def gen_coverages_edge():
+        """coverages at the ends of their ranges: box at / next to 40, box next to 100 (whiskers 100), whiskers just
+        above the box, whiskers at / next to 100 (the one-decimal labels of the five levels stay distinct)"""
+        r = rng.choice(["box-40", "box-high", "close", "wh-100", "wh-high"])
+        if r == "box-40":
+            return rng.choice([40.0, 40.0, 40.000001, 40.1]), rng.choice([41.0, 60.0, 99.9, 100.0])
+        if r == "box-high":
+            return rng.choice([98.5, 99.0, 99.25, 99.5, 99.6]), 100.0
+        if r == "close":
+            box = float(rng.choice([40, 50, 75, 90, 97]))
+            return box, box + rng.choice([0.5, 0.6, 1.0])
+        if r == "wh-100":
+            return float(rng.choice([40, 50, 80, 95])), 100.0
+        return float(rng.choice([40, 50, 80, 95])), rng.choice([99.5, 99.8, 99.9, 99.99])
+
+    def gen_column_edge(n):
+        """a column of n values in one of the narrow regions: a magnitude class; exactly 3 / 4 / 5 finite values
+        (where the NaN row starts) among non-finite ones; a size that puts percentile levels exactly on sample
+        values; nearly constant (two neighbouring doubles); finite values next to the largest double"""
+        r = rng.choice(["mag", "mag", "mag", "few-finite", "on-sample", "near-constant", "near-max"])
+        if r == "mag":
+            v, name = gen_values_mag(rng, n)
+            return (add_nonfinite(rng, v) if rng.random() < 0.5 else v), "mag:" + name.split(":")[0]
+        if r == "few-finite":
+            nfin = min(n, rng.choice([3, 4, 4, 5]))
+            v = [rng.choice([NAN, INF, -INF]) for _ in range(n)]
+            for k in rng.sample(range(n), nfin):
+                v[k] = rng.choice([0.0, 1.0, rng.gauss(0, 1), rng.gauss(0, 1) * 1e-12])
+            return v, r
+        if r == "on-sample":
+            m = 1 + rng.choice([20, 40, 4, 8, 100, 200])      # (m - 1) * level / 100 is whole for 5, 25, 50 ...
+            v = gen_values(rng, m) + [NAN] * max(0, n - m)
+            rng.shuffle(v)
+            return v, r
+        if r == "near-constant":
+            base = rng.choice(MAG_BASES)
+            return [rng.choice([base, base, math.nextafter(base, INF)]) for _ in range(n)], r
+        return [rng.choice([1.0, -1.0]) * rng.uniform(0.5, 1.0) * 1.7e308 / max(n, 1) for _ in range(n)], r
+
+    for it in range(ctx.scale(90, 700)):
+        n = max(1, rng.choice([4, 5, 8, 21, rng.randint(1, 40), rng.randint(1, ctx.scale(150, 600))]))
+        cols, kinds = {}, []
+        for k in range(rng.choice([1, 1, 2, 3])):
+            v, kind = gen_column_edge(n)
+            v = (v + [NAN] * n)[:max(n, len(v))]
+            cols[f"c{k}"] = v
+            kinds.append(kind)
+        m = max(len(v) for v in cols.values())
+        cols = {k: v + [NAN] * (m - len(v)) for k, v in cols.items()}
+        box, wh = gen_coverages_edge() if it % 2 else gen_coverages(rng)
+        ctx.count(("box-edge",) + tuple(sorted(set(kinds))))
+        if it % 3 == 0:
+            for v in cols.values():
+                do_boxfn(v, box, wh, rng.choice(["ndarray", "series:range", "strided"]), rng.randrange(10 ** 6))
+        else:
+            do_box(cols, box, wh)
+
     # ------------------------------------------------------------------ box plot with `by`
     def by_rep(name, labels, index):
         """the grouping vector held as array / list / tuple / int32 array / Series (named or not) that carries
@@ -1318,8 +1561,9 @@ def run(ctx):
                  float(rp["whiskers_coverage"]), bool(rp.get("string_labels")), rp.get("data_held_as", "ndarray"),
                  rp.get("by_held_as", "ndarray"), int(rp.get("rep_seed", 0)),
                  bool(rp.get("same_objects_passed_twice")))
-    def gen_by(maxsize, one_ok=True):
-        ncat = rng.choice([2, 2, 3, 4, 5])
+    def gen_by(maxsize, one_ok=True, ncat=None):
+        """ncat: number of categories (default 2..5; up to 12: one per month)"""
+        ncat = ncat or rng.choice([2, 2, 3, 4, 5])
         if one_ok and rng.random() < 0.05:
             ncat = 1
         sizes = [rng.choice([1, 2, 3, 4, 5, rng.randint(1, 30), rng.randint(1, maxsize)]) for _ in range(ncat)]
@@ -1356,10 +1600,86 @@ def run(ctx):
                           ["ndarray", "list", "tuple", "series", "series-named"] + ([] if aslabels else ["int32"]))
         box, wh = gen_coverages(rng)
         do_boxby(by, vals, box, wh, aslabels, drep, brep, rng.randrange(10 ** 6), twice=rng.random() < 0.25)
+    # groups in the narrow regions of above (magnitude classes, 3 / 4 / 5 finite values in a group, coverages at the
+    # ends of their ranges); a group of magnitude 1e-300 beside a group of magnitude 1e+300
+    for it in range(ctx.scale(40, 300)):
+        by = gen_by(ctx.scale(60, 300), one_ok=False, ncat=rng.choice([None, None, 8, 12]))
+        r = rng.random()
+        if r < 0.5:
+            vals, _ = gen_values_mag(rng, len(by))
+        elif r < 0.75:      # every group its own magnitude
+            maps = {c: mag_map(rng)[1] for c in set(by)}
+            vals = [float(maps[c](rng.gauss(0, 1) if rng.random() < 0.7 else float(rng.randint(-2, 2)))) for c in by]
+        else:               # few finite values per group
+            vals = [rng.choice([NAN, INF, -INF]) for _ in by]
+            for c in set(by):
+                pos = [k for k, b in enumerate(by) if b == c]
+                for k in rng.sample(pos, min(len(pos), rng.choice([3, 4, 4, 5]))):
+                    vals[k] = rng.choice([0.0, 1.0, rng.gauss(0, 1), rng.gauss(0, 1) * 1e-12])
+        if r < 0.75 and rng.random() < 0.5:
+            vals = add_nonfinite(rng, vals)
+        box, wh = gen_coverages_edge() if it % 2 else gen_coverages(rng)
+        do_boxby(by, vals, box, wh, rng.random() < 0.3)
 
     # ------------------------------------------------------------------ violin
-    def do_violin(cols, frep="frame", seed=0, twice=False):
-        """frep: how the columns are held (frame_rep); twice: a second Violin is built from the same object"""
+    VROWS = ["Q0", "Q25", "median", "Q75", "Q100"]
+
+    def o_violin_quant(i, vals, st, rp, where="violin"):
+        """statement on one column: st = the implementation's quantiles 0, 25, 50, 75, 100; they are those of the
+        finite values.  False: the profile of the column is not examined."""
+        fin = [v for v in vals if isfin(v)]
+        nonfin = len(fin) < len(vals)
+        hasinf = any(math.isinf(v) for v in vals)
+        if not fin:
+            if not all(math.isnan(v) for v in st):
+                fail(i, f"C20/{where}/nonfinite-input/quantile-not-finite-sample" if hasinf else
+                     f"C20/{where}/empty-column-not-nan", f"no finite value but statistics {st}", rp)
+                return False
+            return True
+        s = sorted(F(v) for v in fin)
+        tol = rel_tol(fin)
+        for r, lev, got in zip(VROWS, [0, 25, 50, 75, 100], st):
+            want = exact_percentile(s, Fraction(lev))
+            if not close(got, want, tol):
+                fail(i, f"C20/{where}/nonfinite-input/quantile-not-finite-sample" if hasinf else
+                     f"C20/{where}/quantile" + ("/nan-input" if nonfin else ""),
+                     f"{r} = {got!r}, the finite sample gives {float(want)!r} (n={len(fin)})", rp)
+                return True
+        if any(not a <= b for a, b in zip(st, st[1:])):
+            fail(i, f"C20/{where}/not-ordered", f"quantiles not in non-decreasing order: {st}", rp)
+        return True
+
+    def o_violin_profile(j, vals, x, y, rp, where="violin", strict=True):
+        """statement on the density profile of one column (x, y = kde_x, kde_y): finite, in [0, 1] with minimum 0
+        and maximum 1, abscissae sorted within the data range.  strict=False (columns of extreme magnitude, see
+        the generator restrictions of the violin): a missing profile is accepted, a profile that is there is
+        examined."""
+        fin = [v for v in vals if isfin(v)]
+        has = not all(math.isnan(v) for v in x)
+        degenerate = len(fin) < 3 or (max(fin) - min(fin)) <= 1e-6 * scale_of(fin) or not strict
+        if not has:
+            if not degenerate:
+                fail(j, f"C20/{where}/profile-missing", f"no density profile for {len(fin)} finite values", rp)
+            elif not all(math.isnan(v) for v in y):
+                fail(j, f"C20/{where}/profile-inconsistent", "kde_x is NaN but kde_y is not", rp)
+            return
+        if len(fin) < 3:
+            fail(j, f"C20/{where}/profile-from-too-few-values", f"profile from {len(fin)} finite values", rp)
+            return
+        if any(not isfin(v) for v in y) or min(y) != 0.0 or max(y) != 1.0:
+            if degenerate:
+                return
+            fail(j, f"C20/{where}/profile-not-normalised",
+                 f"kde_y range [{min(y)!r}, {max(y)!r}], non-finite: {sum(1 for v in y if not isfin(v))}", rp)
+            return
+        lo, hi = min(fin) - 1.0000001e-6, max(fin) + 1.0000001e-6
+        if any(not a <= b for a, b in zip(x, x[1:])) or x[0] < lo or x[-1] > hi:
+            fail(j, f"C20/{where}/abscissae", f"kde_x not sorted within the data range [{min(fin)!r}, {max(fin)!r}]", rp)
+
+    def do_violin(cols, frep="frame", seed=0, twice=False, loose=()):
+        """frep: how the columns are held (frame_rep); twice: a second Violin is built from the same object;
+        loose: names of the columns of extreme magnitude (outside the generator restrictions of the density
+        profile: a missing profile is accepted for them)"""
         names = list(cols)
         nrows = len(cols[names[0]])
         df, keys = frame_rep(pd, frep, cols, seed)
@@ -1383,8 +1703,9 @@ def run(ctx):
             events.append(["unif", [float(v) for v in np.atleast_1d(r)]])
             return r
         replay = {"call": "Violin(DataFrame)", "columns": cols, "columns_held_as": frep, "rep_seed": seed,
-                  "same_object_passed_twice": twice}
-        held = {"columns_held_as": frep, "rep_seed": seed, "same_object_passed_twice": twice}
+                  "same_object_passed_twice": twice, "extreme_magnitude_columns": list(loose)}
+        held = {"columns_held_as": frep, "rep_seed": seed, "same_object_passed_twice": twice,
+                "extreme_magnitude_columns": list(loose)}
         err = None
         try:
             if twice:
@@ -1427,11 +1748,11 @@ def run(ctx):
                 cur["y"] = ev[1]
         elig = [k for k in names if len(fins[k]) > 2]
         seg_of = dict(zip(elig, segs)) if len(segs) == len(elig) else {}
-        rows = ["Q0", "Q25", "median", "Q75", "Q100"]
+        rows = VROWS
         for k in names:
             vals, fin = cols[k], fins[k]
             rp = dict(held, call="Violin(DataFrame)", column=vals, nrows=nrows)
-            if len(names) > 1 or frep != "frame":
+            if len(names) > 1 or frep != "frame" or loose:
                 rp["columns"] = cols
             try:
                 st = [float(stats.loc[r, key_of[k]]) for r in rows]
@@ -1440,28 +1761,10 @@ def run(ctx):
                      f"(columns held as {frep})", rp)
                 return res
             rp["impl_stats"] = st
-            nonfin = len(fin) < len(vals)
             hasinf = any(math.isinf(v) for v in vals)
-            i = add(f"CViolin {fl(vals)} {fl(st)}", rp, ("violin",) + sig_col(vals) + (hasinf,))
-            # statement: quantiles 0, 25, 50, 75, 100 of the finite values
-            if not fin:
-                if not all(math.isnan(v) for v in st):
-                    fail(i, "C20/violin/nonfinite-input/quantile-not-finite-sample" if hasinf else
-                         "C20/violin/empty-column-not-nan", f"no finite value but statistics {st}")
-                    continue
-            else:
-                s = sorted(F(v) for v in fin)
-                tol = 1e-9 * scale_of(fin)
-                for r, lev, got in zip(rows, [0, 25, 50, 75, 100], st):
-                    want = exact_percentile(s, Fraction(lev))
-                    if not close(got, want, tol):
-                        fail(i, "C20/violin/nonfinite-input/quantile-not-finite-sample" if hasinf else
-                             "C20/violin/quantile" + ("/nan-input" if nonfin else ""),
-                             f"{r} = {got!r}, the finite sample gives {float(want)!r} (n={len(fin)})")
-                        break
-                else:
-                    if any(not a <= b for a, b in zip(st, st[1:])):
-                        fail(i, "C20/violin/not-ordered", f"quantiles not in non-decreasing order: {st}")
+            i = add(f"CViolin {fl(vals)} {fl(st)}", rp, ("violin",) + sig_col(vals) + (hasinf, k in loose))
+            if not o_violin_quant(i, vals, st, None):
+                continue
             # density profile
             x = [float(v) for v in kx[key_of[k]].values]
             y = [float(v) for v in ky[key_of[k]].values]
@@ -1481,29 +1784,12 @@ def run(ctx):
                         rp, ("violin-x-small", len(fin), has))
             else:
                 j = i
-            degenerate = len(fin) < 3 or (max(fin) - min(fin)) <= 1e-6 * scale_of(fin)
-            if not has:
-                if not degenerate:
-                    fail(j, "C20/violin/profile-missing", f"no density profile for {len(fin)} finite values")
-                elif not all(math.isnan(v) for v in y):
-                    fail(j, "C20/violin/profile-inconsistent", "kde_x is NaN but kde_y is not")
-                continue
-            if len(fin) < 3:
-                fail(j, "C20/violin/profile-from-too-few-values", f"profile from {len(fin)} finite values")
-                continue
-            if any(not isfin(v) for v in y) or min(y) != 0.0 or max(y) != 1.0:
-                if degenerate:
-                    continue
-                fail(j, "C20/violin/profile-not-normalised",
-                     f"kde_y range [{min(y)!r}, {max(y)!r}], non-finite: {sum(1 for v in y if not isfin(v))}")
-                continue
-            lo, hi = min(fin) - 1.0000001e-6, max(fin) + 1.0000001e-6
-            if any(not a <= b for a, b in zip(x, x[1:])) or x[0] < lo or x[-1] > hi:
-                fail(j, "C20/violin/abscissae", f"kde_x not sorted within the data range [{min(fin)!r}, {max(fin)!r}]")
+            o_violin_profile(j, vals, x, y, None, strict=k not in loose)
         return res
 
     if replay_is("Violin(DataFrame)"):
-        vrep = (rp.get("columns_held_as", "frame"), int(rp.get("rep_seed", 0)), bool(rp.get("same_object_passed_twice")))
+        vrep = (rp.get("columns_held_as", "frame"), int(rp.get("rep_seed", 0)), bool(rp.get("same_object_passed_twice")),
+                tuple(rp.get("extreme_magnitude_columns", ())))
         if "columns" in rp:
             do_violin({k: [float(v) for v in vs] for k, vs in rp["columns"].items()}, *vrep)
         elif "column" in rp:
@@ -1526,6 +1812,23 @@ def run(ctx):
                 v = [z * 1.0 for z in gen_values(rng, nrows)]
             cols[f"v{k}"] = add_nonfinite(rng, v) if rng.random() < 0.6 else v
         do_violin(cols)
+
+    # columns of extreme but legal magnitudes (the quantiles are those of the finite values whatever the magnitude;
+    # the profile, when there is one, is normalised), alone and beside ordinary columns
+    for it in range(ctx.scale(36, 300)):
+        nrows = rng.choice([3, 4, 5, 9, rng.randint(1, 60), rng.randint(80, 130), rng.randint(1, ctx.scale(300, 900))])
+        cols, loose = {}, []
+        for k in range(rng.choice([1, 1, 2, 3])):
+            if k > 0 and rng.random() < 0.4:
+                v = [float(z) for z in gen_values(rng, nrows)]
+                fin = [z for z in v if isfin(z)]
+                if len(set(fin)) > 1 and (max(fin) - min(fin)) < 1e-2 * scale_of(fin):
+                    v = [float(z) for z in range(nrows)]
+            else:
+                v, _ = gen_values_mag(rng, nrows)
+                loose.append(f"v{k}")
+            cols[f"v{k}"] = add_nonfinite(rng, v) if rng.random() < 0.5 else v
+        do_violin(cols, loose=tuple(loose))
 
     def violin_column(nrows, needs=None):
         """a column inside the generator restrictions of the violin (see notes), or None"""
@@ -1697,6 +2000,325 @@ def run(ctx):
         model_too[0] = it % 3 == 0      # every third history also as cases of the model
         run_history(steps)
     model_too[0] = True
+
+    # ------------------------------------------------------------------ lives of the plot objects
+    # The summaries are observed at Boxplot(...).stats and Violin(...).stats / kde_x / kde_y, and the objects have
+    # a life after their construction: every option of the constructor, every drawing / option method (draw on a
+    # linear or log axis, with an offset, on the current or a given axis, twice; show_count; set_ylim with limits
+    # inside the data; set_color; reset_items; the settings of the items that select the branches of draw), in any
+    # order.  Whatever was called, what is read afterwards is examined by the same oracle as a fresh answer: the
+    # stored summaries are the sample statistics of the finite values (oracle only - no case for the Coq model).
+    # The data include what the drawing code treats specially: zeros and negative values (log axis), columns
+    # with a NaN row, constant columns, extreme magnitudes.  An exception of a drawing method is not reported (the
+    # statement is about the summaries), the summaries are examined after it all the same.
+    import matplotlib
+    matplotlib.use("Agg")
+    import matplotlib.pyplot as plt
+    from matplotlib.figure import Figure
+
+    BOX_CTOR_OPTIONS = {"style": ["default", "narrow"], "show_mean": [False, True], "show_median": [True, True, False],
+                        "show_text": [False, True], "center_text": [True, False], "linewidth": [2, 1, 3.5],
+                        "width_from_count": [False, True], "number_format": ["0.2f", "0.0f", "3.3e", ".4g"]}
+    BOX_ITEM_SETTINGS = [("median", "show_text", True), ("median", "show_line", False), ("median", "marker", "o"),
+                         ("mean", "marker", "+"), ("mean", "show_text", True), ("mean", "show_line", True),
+                         ("box", "show_text", True), ("box", "ha", "center"), ("box", "ha", "left"),
+                         ("box", "facecolor", "none"), ("box", "show_line", False),
+                         ("box", "boxstyle", "Round,pad=0,rounding_size=0.2"), ("box", "alpha", 0.3),
+                         ("whiskers", "width", 0.3), ("whiskers", "width", 0.0), ("whiskers", "show_line", False),
+                         ("caps", "width", 0.0), ("caps", "width", 0.5), ("caps", "show_line", False),
+                         ("minmax", "marker", "*"), ("minmax", "marker", "none"), ("minmax", "show_line", True),
+                         ("count", "show_text", False), ("count", "number_format", "%0.1f"),
+                         ("count", "fontsize", 9)]
+    VIOLIN_CTOR_OPTIONS = {"show_text": [True, False], "linewidth": [2, 1], "number_format": ["0.2f", "3.3e"],
+                           "col_ref_median": ["darkblue", "k"], "col_ref_others": ["tab:blue", "tab:red"],
+                           "brightening_factor_light": [-0.5, 0.3], "brightening_factor_superlight": [-1.0, 0.5],
+                           "npoints_kde": [None, 50, 101, 7, 200], "nresample_kde": [500, 10, 50],
+                           "st": [False], "lw": [3], "nfmt": ["0.1f"], "crm": ["green"], "cro": ["grey"],
+                           "bfl": [-0.2], "bfsl": [-0.8]}
+    VIOLIN_ITEM_SETTINGS = [("median", "show_text", False), ("median", "show_text", True), ("center", "show_text", True),
+                            ("center", "ha", "left"), ("median", "ha", "left"), ("extremes", "hatch", "none"),
+                            ("center", "hatch", "/"), ("extremes", "alpha", 0.5), ("median", "linewidth", 1)]
+
+    def gen_life_column(n):
+        """a column for the life of a plot object: what draw treats specially"""
+        r = rng.choice(["gauss", "positive", "zeros", "negative", "ints", "const-0", "const", "nan-row", "tiny", "huge"])
+        if r == "gauss":
+            v = [rng.gauss(0, 1) * rng.choice([1.0, 10.0]) for _ in range(n)]
+        elif r == "positive":
+            v = [math.exp(rng.gauss(0, 1)) for _ in range(n)]
+        elif r == "zeros":          # intermittent: many zeros, the rest positive
+            v = [max(0.0, rng.gauss(0, 1)) for _ in range(n)]
+        elif r == "negative":
+            v = [-math.exp(rng.gauss(0, 1)) for _ in range(n)]
+        elif r == "ints":
+            v = [float(rng.randint(-2, 2)) for _ in range(n)]
+        elif r == "const-0":
+            v = [0.0] * n
+        elif r == "const":
+            v = [rng.choice([5.0, -1.5])] * n
+        elif r == "nan-row":        # at most 3 finite values
+            v = [NAN] * n
+            for k in rng.sample(range(n), min(n, rng.randint(0, 3))):
+                v[k] = rng.gauss(0, 1)
+            return v
+        else:
+            v, _ = gen_values_mag(rng, n, r)
+        return add_nonfinite(rng, v) if rng.random() < 0.5 else v
+
+    def gen_ylim(vals):
+        """limits inside / around / outside the data, either order"""
+        fin = sorted(v for v in vals if isfin(v)) or [0.0, 1.0]
+        r = rng.random()
+        if r < 0.5:
+            lo, hi = fin[len(fin) // 4], fin[(3 * len(fin)) // 4]      # cuts the boxes
+        elif r < 0.7:
+            lo, hi = fin[0], fin[-1]
+        elif r < 0.85:
+            lo, hi = -1.0, 1.0
+        else:
+            lo, hi = fin[-1] + 1.0, fin[-1] + 2.0       # everything off limits
+        if not hi > lo:
+            hi = lo + max(1.0, abs(lo))
+        return [float(lo), float(hi)]
+
+    def gen_box_ops(allvals, it):
+        """a sequence of operations on a Boxplot; the iteration number makes sure that every option comes up"""
+        ops = []
+        for s in rng.sample(BOX_ITEM_SETTINGS, rng.choice([0, 1, 2, 4])) + [BOX_ITEM_SETTINGS[it % len(BOX_ITEM_SETTINGS)]]:
+            ops.append({"op": "set-item", "item": s[0], "attr": s[1], "value": s[2]})
+        ndraw = rng.choice([1, 1, 2])
+        for d in range(ndraw):
+            log = [False, True][(it + d) % 2] if d == 0 else rng.random() < 0.5
+            ops.append({"op": "draw", "ax": rng.choice(["given", "given", "current", "same"]), "logscale": log,
+                        "xoffset": rng.choice([0.0, 0.0, 0.3, -1.0])})
+            for name in rng.sample(["show_count", "set_ylim", "set_color", "set-item", "read"], rng.randint(1, 4)):
+                if name == "show_count":
+                    ops.append({"op": name, "ypos": rng.choice([0.025, 0.9])})
+                elif name == "set_ylim":
+                    ops.append({"op": name, "ylim": rng.choice([gen_ylim(allvals), gen_ylim(allvals)[::-1]]),
+                                "hide_offlimit_text": rng.random() < 0.5})
+                elif name == "set_color":
+                    ops.append({"op": name, "pattern": rng.choice([".", "c0", "1", "nomatch"]),
+                                "color": rng.choice(["red", "tab:green"]), "alpha": rng.choice([0.5, 1.0])})
+                elif name == "set-item":
+                    s = rng.choice(BOX_ITEM_SETTINGS)
+                    ops.append({"op": "set-item", "item": s[0], "attr": s[1], "value": s[2]})
+                else:
+                    ops.append({"op": "read"})
+        return ops
+
+    def apply_plot_op(obj, op, axes):
+        """one operation on a Boxplot / Violin; axes: {"fig": Figure, "last": axis of the last draw}"""
+        name = op["op"]
+        if name == "read":
+            return
+        if name == "set-item":
+            item = getattr(obj, op["item"], None)
+            if item is not None:
+                setattr(item, op["attr"], op["value"])
+            return
+        if name == "draw":
+            kw = {k: op[k] for k in ("logscale", "xoffset", "ylim") if k in op}
+            if kw.get("ylim") is not None:
+                kw["ylim"] = tuple(kw["ylim"])
+            if op["ax"] == "current":
+                plt.close("all")
+                obj.draw(**kw)
+                axes["last"] = plt.gca()
+            else:
+                if op["ax"] == "given" or axes.get("last") is None:
+                    axes["last"] = Figure().subplots()
+                obj.draw(ax=axes["last"], **kw)
+            return
+        if name == "show_count":
+            obj.show_count(ypos=op["ypos"])
+        elif name == "set_ylim":
+            obj.set_ylim(tuple(op["ylim"]), hide_offlimit_text=op["hide_offlimit_text"])
+        elif name == "set_color":
+            obj.set_color(op["pattern"], op["color"], alpha=op["alpha"])
+        elif name == "reset_items":
+            obj.reset_items()
+        else:
+            raise ValueError(name)
+
+    def note_raised(op, e):
+        """an exception of a drawing / option method: counted in the evidence, not a failure of the statement"""
+        ctx.notes["plot_method_raised"] = ctx.notes.get("plot_method_raised", 0) + 1
+        kinds = ctx.notes.setdefault("plot_method_raised_kinds", {})
+        k = f"{op['op']}: {flat_exc(e)[:70]}"
+        if k in kinds or len(kinds) < 12:
+            kinds[k] = kinds.get(k, 0) + 1
+
+    def do_box_life(cols, by, box, wh, options, ops):
+        """cols: dict name -> list; by: None (Boxplot(DataFrame)) or a list of categories (one column: Boxplot(data,
+        by)); options: keyword arguments of the constructor; ops: operations applied in order"""
+        replay = {"call": "Boxplot-life", "columns": cols, "by": by, "box_coverage": box, "whiskers_coverage": wh,
+                  "constructor_options": options, "operations": ops,
+                  "input_class": "life of a plot object: constructor options, then drawing / option methods; the "
+                                 "stored summaries are read after each of them"}
+        names = list(cols)
+        where = "boxplot-by" if by is not None else "boxplot"
+        try:
+            if by is None:
+                bp = hbox.Boxplot(pd.DataFrame({k: np.array(v, dtype=float) for k, v in cols.items()}),
+                                  box_coverage=box, whiskers_coverage=wh, **options)
+                groups = {k: (k, cols[k]) for k in names}
+            else:
+                vals = cols[names[0]]
+                bp = hbox.Boxplot(np.array(vals, dtype=float), by=np.array(by), box_coverage=box,
+                                  whiskers_coverage=wh, **options)
+                groups = {c: (c, [v for b, v in zip(by, vals) if b == c]) for c in sorted(set(by))}
+        except Exception as e:      # noqa: BLE001
+            fail(None, f"C20/{where}/raises", f"Boxplot with the constructor options {options} raised {flat_exc(e)}",
+                 replay)
+            return
+        b1, b2 = hbox.compute_percentiles(box)
+        w1, w2 = hbox.compute_percentiles(wh)
+        levels = [w1, b1, 50, b2, w2]
+        axes = {}
+
+        def examine(obj, after, upto):
+            """the stored summaries, read now, are the sample statistics of every column / group"""
+            rp = dict(replay, operations=ops[:upto], read_after=after)
+            stats = obj.stats
+            nv = ctx.violation_count
+            for g, (key, sub) in groups.items():
+                if key not in stats.columns:
+                    fail(None, f"C20/{where}/after-{after}/missing-column", f"no statistics for {key!r} after "
+                         f"{after}: columns {list(stats.columns)}", rp)
+                    return False
+                st = read_stats(stats[key], levels)
+                if st is None:
+                    return True
+                o_boxstats(None, sub, box, wh, st, f"{where}/after-{after}", dict(rp, column_or_group=key, impl=st))
+            return ctx.violation_count == nv
+
+        ctx.count(("box-life", "new", by is not None) + tuple(sorted(options.items())))
+        if not examine(bp, "construction", 0):
+            return
+        for k, op in enumerate(ops):
+            try:
+                apply_plot_op(bp, op, axes)
+                raised = False
+            except Exception as e:       # noqa: BLE001
+                raised = True
+                note_raised(op, e)
+            after = op["op"] + ("-logscale" if op.get("logscale") else "")
+            ctx.count(("box-life", after, by is not None, raised,
+                       (op.get("item"), op.get("attr"), str(op.get("value"))) if op["op"] == "set-item" else
+                       (op.get("ax"), op.get("xoffset", 0) != 0, op.get("pattern"), op.get("hide_offlimit_text"))))
+            if not examine(bp, after, k + 1):
+                break
+        plt.close("all")
+
+    def gen_box_life(it):
+        n = rng.choice([5, 8, 12, rng.randint(4, 40), rng.randint(4, 60)])
+        options = {}
+        keys = list(BOX_CTOR_OPTIONS)
+        # every option value comes up: option it % len alone, plus a random combination
+        k0 = keys[it % len(keys)]
+        options[k0] = BOX_CTOR_OPTIONS[k0][(it // len(keys)) % len(BOX_CTOR_OPTIONS[k0])]
+        for k in rng.sample(keys, rng.choice([0, 1, 3, len(keys)])):
+            options.setdefault(k, rng.choice(BOX_CTOR_OPTIONS[k]))
+        box, wh = rng.choice([(50.0, 90.0), (50.0, 90.0), gen_coverages(rng)])
+        if it % 3 == 2:
+            by = gen_by(20, one_ok=False)
+            cols = {"c0": gen_life_column(len(by))}
+        else:
+            by = None
+            cols = {f"c{k}": gen_life_column(n) for k in range(rng.choice([1, 2, 3, 4, 9]))}
+        allvals = [v for vs in cols.values() for v in vs]
+        return cols, by, box, wh, options, gen_box_ops(allvals, it)
+
+    if replay_is("Boxplot-life"):
+        do_box_life({k: [float(v) for v in vs] for k, vs in rp["columns"].items()}, rp.get("by"),
+                    float(rp["box_coverage"]), float(rp["whiskers_coverage"]), dict(rp.get("constructor_options", {})),
+                    list(rp.get("operations", [])))
+    for it in range(ctx.scale(50, 400)):
+        do_box_life(*gen_box_life(it))
+
+    def do_violin_life(cols, options, ops, loose=()):
+        replay = {"call": "Violin-life", "columns": cols, "constructor_options": options, "operations": ops,
+                  "extreme_magnitude_columns": list(loose),
+                  "input_class": "life of a plot object: constructor options, then drawing / option methods; the "
+                                 "stored summaries are read after each of them"}
+        names = list(cols)
+        try:
+            vl = hvio.Violin(pd.DataFrame({k: np.array(v, dtype=float) for k, v in cols.items()}), **options)
+        except Exception as e:      # noqa: BLE001
+            fail(None, "C20/violin/raises", f"Violin with the constructor options {options} raised {flat_exc(e)}", replay)
+            return
+        axes = {}
+
+        def examine(after, upto):
+            rp = dict(replay, operations=ops[:upto], read_after=after)
+            where = f"violin/after-{after}"
+            nv = ctx.violation_count
+            try:
+                stats, kx, ky = vl.stats, vl.kde_x, vl.kde_y
+                for k in names:
+                    st = [float(stats.loc[r, k]) for r in VROWS]
+                    x = [float(v) for v in kx[k].values]
+                    y = [float(v) for v in ky[k].values]
+                    rk = dict(rp, column=k, impl_stats=st)
+                    if o_violin_quant(None, cols[k], st, rk, where):
+                        o_violin_profile(None, cols[k], x, y, rk, where, strict=k not in loose)
+            except Exception as e:      # noqa: BLE001
+                fail(None, f"C20/{where}/summaries-not-readable", f"reading stats / kde_x / kde_y after {after} "
+                     f"raised {flat_exc(e)}", rp)
+            return ctx.violation_count == nv
+
+        ctx.count(("violin-life", "new") + tuple(sorted((k, str(v)) for k, v in options.items())))
+        if not examine("construction", 0):
+            return
+        for k, op in enumerate(ops):
+            try:
+                apply_plot_op(vl, op, axes)
+                raised = False
+            except Exception as e:       # noqa: BLE001
+                raised = True
+                note_raised(op, e)
+            ctx.count(("violin-life", op["op"], raised, op.get("ylim") is not None,
+                       (op.get("item"), op.get("attr"), str(op.get("value")))))
+            if not examine(op["op"] + ("-ylim" if op.get("ylim") is not None else ""), k + 1):
+                break
+        plt.close("all")
+
+    def gen_violin_life(it):
+        n = rng.choice([5, 8, 30, rng.randint(4, 60), rng.randint(90, 120)])
+        keys = list(VIOLIN_CTOR_OPTIONS)
+        k0 = keys[it % len(keys)]
+        options = {k0: VIOLIN_CTOR_OPTIONS[k0][(it // len(keys)) % len(VIOLIN_CTOR_OPTIONS[k0])]}
+        for k in rng.sample(keys, rng.choice([0, 1, 3, 6])):
+            options.setdefault(k, rng.choice(VIOLIN_CTOR_OPTIONS[k]))
+        cols, loose = {}, []
+        for k in range(rng.choice([1, 2, 3])):
+            v = gen_life_column(n)
+            fin = [z for z in v if isfin(z)]
+            if len(set(fin)) > 1 and (max(fin) - min(fin)) < 1e-2 * scale_of(fin) or mag_of(fin) > 1e6:
+                loose.append(f"v{k}")       # outside the generator restrictions of the density profile
+            cols[f"v{k}"] = v
+        allvals = [v for vs in cols.values() for v in vs]
+        ops = []
+        for s in rng.sample(VIOLIN_ITEM_SETTINGS, rng.choice([0, 1, 2])) + [VIOLIN_ITEM_SETTINGS[it % len(VIOLIN_ITEM_SETTINGS)]]:
+            ops.append({"op": "set-item", "item": s[0], "attr": s[1], "value": s[2]})
+        for d in range(rng.choice([1, 1, 2])):
+            ylim = None if (it + d) % 2 else gen_ylim(allvals)
+            ops.append({"op": "draw", "ax": rng.choice(["given", "current", "same"]), "ylim": ylim})
+            for name in rng.sample(["reset_items", "set-item", "read"], rng.randint(1, 2)):
+                if name == "set-item":
+                    s = rng.choice(VIOLIN_ITEM_SETTINGS)
+                    ops.append({"op": "set-item", "item": s[0], "attr": s[1], "value": s[2]})
+                else:
+                    ops.append({"op": name})
+        return cols, options, ops, tuple(loose)
+
+    if replay_is("Violin-life"):
+        do_violin_life({k: [float(v) for v in vs] for k, vs in rp["columns"].items()},
+                       dict(rp.get("constructor_options", {})), list(rp.get("operations", [])),
+                       tuple(rp.get("extreme_magnitude_columns", ())))
+    for it in range(ctx.scale(32, 250)):
+        do_violin_life(*gen_violin_life(it))
 
     # ------------------------------------------------------------------ Coq
     sel = [i for i, t in enumerate(terms) if t is not None]
